@@ -59,6 +59,8 @@ def main():
     props = set(req.get("props") or ["C07", "C08", "C09"])
     thorough = req.get("tier") == "thorough"
     import desolver as de
+    from monitor import watchdog
+    watchdog.install(de)
     failures, cases = {}, [0]
 
     def fail(cl, **info):
@@ -288,6 +290,36 @@ def main():
                     fail("integration-with-events-raised", error=repr(e)[:200], scale=s_, kind=kind, span=list(span))
                     continue
                 check_run(a, evs, span, dict(method="RK45CK", span=list(span), dense=False, scale=s_, kind=kind, family="long"), 1e-6, False, True)
+    # (a'') sub-divided steps: a Richardson-extrapolated integrator adds one interpolant per sub-step; a terminal stop (roll-back of the
+    # step) must leave a dense output that is ordered, ends at the event and reproduces the recorded states (defect F30, repaired)
+    if "C09" in props or "C07" in props:
+        from desolver import integrators as I_
+        for base_cls, levels in ((I_.RK4Solver, 3), (I_.RK45CKSolver, 2)):
+            for span in spans:
+                for dense in (True, False):
+                    a = system(I_.generate_richardson_integrator(base_cls, levels), span, dense, dt=0.3, tol=1e-8)
+                    mix = [make_event(0, 0.5, 1.0, terminal=True)]
+                    info = dict(method="Richardson(%s,%d)" % (base_cls.__name__, levels), span=list(span), dense=dense, family="sub-divided-steps")
+                    cases[0] += 1
+                    try:
+                        a.integrate(events=mix)
+                    except Exception as e:
+                        fail("integration-with-events-raised", error=repr(e)[:200], **info)
+                        continue
+                    sg = 1.0 if span[1] > span[0] else -1.0
+                    if a.integration_status != "Integration terminated upon finding a triggered event." or len(a.events) != 1:
+                        fail("terminal-event-not-reported-with-sub-divided-steps", status=a.integration_status, n_events=len(a.events), **info)
+                        continue
+                    if a.sol is not None:
+                        te = np.array([float(x) for x in a.sol.t_eval])
+                        if np.any(np.diff(te) <= 0):
+                            fail("dense-output-out-of-order-after-terminal-stop", t_eval_tail=[float(x) for x in te[-5:]], **info)
+                        elif sg * (te[-1] if sg > 0 else te[0]) > sg * float(a.t[-1]) + 1e-9:
+                            fail("dense-output-covers-more-than-the-run-after-terminal-stop", t_end=float(a.t[-1]), **info)
+                        else:
+                            bad = max(float(np.max(np.abs(np.asarray(a.sol(t)) - y))) for t, y in zip(a.t, a.y))
+                            if bad > 1e-6:
+                                fail("dense-output-does-not-reproduce-the-recorded-states-after-terminal-stop", err=bad, **info)
     # (d) crossings exactly on step boundaries, fixed step (y' = 1): two events sharing a step, one root on the boundary
     def rhs1(t, y, **kw):
         return np.array([1.0])
